@@ -245,8 +245,10 @@ class LocalModelDirectoryDatabaseTransaction(ModelTransaction):
         # matching this hash only
         h = self.key.dataset_hash
         h_dir = datasets_path / DIRECTORY_INDEX / str(h)
-        if h_dir.is_dir():
-            hpath = next(h_dir.iterdir())
+        # NOTE: The index file is created last. A directory without index file
+        # was left by an interrupted transaction and the dataset is stored anew.
+        hpath = next(h_dir.iterdir(), None) if h_dir.is_dir() else None
+        if hpath is not None:
             # NOTE: This variable holds a string similar to "run1.csv"
             matching_model_filename = hpath.name
             data_path = datasets_path / matching_model_filename
@@ -258,7 +260,7 @@ class LocalModelDirectoryDatabaseTransaction(ModelTransaction):
                 datainfo = model.datainfo.replace(path=curdi.path)
                 model = model.replace(datainfo=datainfo)
         else:
-            h_dir.mkdir(parents=True, exist_ok=True)
+            datasets_path.mkdir(parents=True, exist_ok=True)
 
             highest = 0
             for file in datasets_path.iterdir():
@@ -271,10 +273,6 @@ class LocalModelDirectoryDatabaseTransaction(ModelTransaction):
             dataset_basename = f'data{highest + 1}'
             dataset_filename = f'{dataset_basename}.csv'
 
-            # NOTE: Create the index file at .datasets/.hash/<hash>/<dataset_filename>
-            index_path = h_dir / dataset_filename
-            index_path.touch()
-
             data_path = path_absolute(datasets_path / dataset_filename)
             datainfo = model.datainfo.replace(path=data_path)
             model = model.replace(datainfo=datainfo)
@@ -283,6 +281,12 @@ class LocalModelDirectoryDatabaseTransaction(ModelTransaction):
             # NOTE: Write datainfo last so that we are "sure" dataset is there
             # if datainfo is there
             model.datainfo.to_json(datasets_path / (dataset_basename + '.datainfo'))
+
+            # NOTE: Create the index file at .datasets/.hash/<hash>/<dataset_filename>
+            # once the dataset and its datainfo are complete
+            h_dir.mkdir(parents=True, exist_ok=True)
+            index_path = h_dir / dataset_filename
+            index_path.touch()
 
         # NOTE: Write the model
         model_path.mkdir(exist_ok=True)
